@@ -107,7 +107,8 @@ def bucketCount (log2 : Nat) (es : List MEntry) (b : Nat) : Nat :=
 /-- outcome of HASH_ADD_KEYPTR -/
 inductive AddRes
   | ok (m : MapSt)
-  | fatal (tbl : Option Nat)     -- uthash_fatal was raised; `some t`: the table header obtained in this very call
+  | fatal (fresh : List Nat)     -- uthash_fatal was raised; `fresh`: what HASH_MAKE_TABLE obtained in this very call
+                                 -- (bucket array first, then the table header: the order in which HASH_DEL releases them)
 deriving Repr
 
 /-- HASH_EXPAND_BUCKETS bookkeeping for the doubled bucket array: (expand_mult list, nonideal_items) -/
@@ -120,7 +121,7 @@ def expandStats (log2 : Nat) (es : List MEntry) : List (Nat × Nat) × Nat :=
 
 /-- the part of HASH_ADD_KEYPTR after the table exists: `num_items++`, HASH_ADD_TO_BKT with its expansion test.
     `es` already contains the new entry `e`. -/
-def addToBkt (failAt : Nat) (u : UT) (es : List MEntry) (e : MEntry) (fresh : Option Nat) (s : St) : AddRes × St :=
+def addToBkt (failAt : Nat) (u : UT) (es : List MEntry) (e : MEntry) (fresh : List Nat) (s : St) : AddRes × St :=
   let b := e.hashv % 2 ^ u.log2
   if bucketCount u.log2 es b ≥ (multOf u b + 1) * Uthash.bktCapacityThresh ∧ u.noexpand = false then
     match alloc failAt s with                                     -- uthash_malloc(2 * num_buckets * sizeof(UT_hash_bucket))
@@ -137,14 +138,14 @@ def addToBkt (failAt : Nat) (u : UT) (es : List MEntry) (e : MEntry) (fresh : Op
 /-- HASH_ADD_KEYPTR(hh, map->head, key, keylen, item) -/
 def hashAdd (failAt : Nat) (m : MapSt) (e : MEntry) (s : St) : AddRes × St :=
   match m.ut with
-  | some u => addToBkt failAt u (m.entries ++ [e]) e none s
+  | some u => addToBkt failAt u (m.entries ++ [e]) e [] s
   | none =>                                                       -- head == NULL: head = item; HASH_MAKE_TABLE
     match alloc failAt s with                                     -- uthash_malloc(sizeof(UT_hash_table))
-    | (none, s1) => (.fatal none, s1)
+    | (none, s1) => (.fatal [], s1)
     | (some t, s1) =>
       match alloc failAt s1 with                                  -- uthash_malloc(HASH_INITIAL_NUM_BUCKETS * sizeof(UT_hash_bucket))
-      | (none, s2) => (.fatal (some t), s2)
-      | (some b, s2) => addToBkt failAt { tbl := t, bkts := b, log2 := Uthash.initialLog2 } (m.entries ++ [e]) e none s2
+      | (none, s2) => (.fatal [t], s2)
+      | (some b, s2) => addToBkt failAt { tbl := t, bkts := b, log2 := Uthash.initialLog2 } (m.entries ++ [e]) e [b, t] s2
 
 /-- take the entry with the given normalised key out of the list (HASH_FIND + position), keeping the order -/
 def extract (k : Str) : List MEntry → Option (MEntry × List MEntry)
@@ -221,65 +222,77 @@ def cloneOnto (failAt : Nat) (target : Owned) (sh : Shape) (s : St) : Option Own
   | (none, s') => (none, s')
   | (some o, s') => (some (o.withObj target.obj), free o.obj (cleanOwned target s'))
 
+/-- cif_map_set_item, the branch "there is an existing item for the given key" (`e`, found by HASH_FIND); `kn` = the
+    block of the normalised key, released at the end in any case.  When the spelling differs (`different_key`) the item
+    is respelled BEFORE the value is cloned: if that clone then fails, the call fails but the item keeps the new
+    spelling (whose copy belongs to the item: it is not lost). -/
+def mapSetExisting (failAt : Nat) (m : MapSt) (key keyNorm : Str) (e : MEntry) (value : Option Shape) (kn : Nat)
+    (s1 : St) : MapRes × St :=
+  if key = e.origStr then
+    match value with
+    | none => ({ rc := OK, map := { m with entries := replaceEntry keyNorm { e with val := .scalar e.val.obj } m.entries } },
+               free kn (cleanOwned e.val s1))
+    | some sh =>
+      match cloneOnto failAt e.val sh s1 with
+      | (none, s2) => ({ rc := MEMORY_ERROR, map := m }, free kn s2)
+      | (some v, s2) => ({ rc := OK, map := { m with entries := replaceEntry keyNorm { e with val := v } m.entries } }, free kn s2)
+  else
+    match alloc failAt s1 with                                    -- key_orig = cif_u_strdup(key)
+    | (none, s2) => ({ rc := MEMORY_ERROR, map := m }, free kn s2)
+    | (some o, s2) =>
+      let e1 := { e with orig := o, origStr := key }
+      let s2 := free e.orig s2                                     -- free(item->key_orig): the item is respelled from here on
+      match value with
+      | none => ({ rc := OK, map := { m with entries := replaceEntry keyNorm { e1 with val := .scalar e.val.obj } m.entries } },
+                 free kn (cleanOwned e.val s2))
+      | some sh =>
+        match cloneOnto failAt e.val sh s2 with
+        | (none, s3) => ({ rc := MEMORY_ERROR, map := { m with entries := replaceEntry keyNorm e1 m.entries } }, free kn s3)
+        | (some v, s3) => ({ rc := OK, map := { m with entries := replaceEntry keyNorm { e1 with val := v } m.entries } }, free kn s3)
+
+/-- the value of a new entry whose block is `ent`: `new_value->kind = CIF_UNK_KIND; (value == NULL) || cif_value_clone(…)` -/
+def newValue (failAt : Nat) (ent : Nat) (value : Option Shape) (s : St) : Option Owned × St :=
+  match value with
+  | none => (some (.scalar ent), s)
+  | some sh => cloneOnto failAt (.scalar ent) sh s
+
+/-- cif_map_set_item, the branch "this will be a new item for the map".  `fixed = false` is the code AS IT IS: when
+    uthash_fatal is raised inside HASH_ADD_KEYPTR the handler releases the new entry although uthash has already linked
+    it (as `head`, or into the item list and a bucket chain), never cleans its cloned value and never releases what
+    HASH_MAKE_TABLE obtained for a first entry.  `fixed = true`: the handler first undoes the insertion (HASH_DEL, or
+    resetting a table-less head) and cleans the value. -/
+def mapSetNew (fixed : Bool) (failAt : Nat) (m : MapSt) (key keyNorm : Str) (value : Option Shape) (kn : Nat)
+    (s1 : St) : MapRes × St :=
+  match alloc failAt s1 with                                      -- item = malloc(sizeof(struct entry_s))
+  | (none, s2) => ({ rc := MEMORY_ERROR, map := m }, free kn s2)
+  | (some ent, s2) =>
+    match alloc failAt s2 with                                    -- key_copy = cif_u_strdup(key)
+    | (none, s3) => ({ rc := MEMORY_ERROR, map := m }, free kn (free ent s3))
+    | (some kc, s3) =>
+      match newValue failAt ent value s3 with
+      | (none, s4) => ({ rc := MEMORY_ERROR, map := m }, free kn (free ent (free kc s4)))
+      | (some v, s4) =>
+        match hashAdd failAt m { key := kn, orig := kc, keyStr := keyNorm, origStr := key,
+                                 hashv := hashJen (keyBytes keyNorm), val := v } s4 with
+        | (.ok m', s5) => ({ rc := OK, map := m' }, s5)
+        | (.fatal t, s5) =>
+          if fixed then
+            -- undo the insertion (HASH_DEL of an only item releases what HASH_MAKE_TABLE obtained), clean the value,
+            -- then the handler
+            ({ rc := MEMORY_ERROR, map := m }, free kn (free ent (free kc (cleanOwned v (freeAll t s5)))))
+          else
+            ({ rc := MEMORY_ERROR, map := m, corrupt := true, leaked := v.parts ++ t }, free kn (free ent (free kc s5)))
+
 /-- cif_map_set_item(map, key, value, code).  `key` = the spelling given, `keyNorm` = its normalised form, `value = none`
-    = NULL.  `fixed = false` is the code AS IT IS: when uthash_fatal is raised inside HASH_ADD_KEYPTR the handler
-    releases the new entry although uthash has already linked it (as `head`, or into the item list and a bucket chain),
-    never cleans its cloned value and never releases a table header obtained for a first entry.  `fixed = true`: the
-    handler first undoes the insertion (HASH_DEL, or resetting a table-less head) and cleans the value. -/
+    = NULL (`value == existing_value` is not modelled: the value is a separate object). -/
 def mapSet (fixed : Bool) (failAt : Nat) (kind : MapKind) (m : MapSt) (key keyNorm : Str) (value : Option Shape)
     (s : St) : MapRes × St :=
   match normKey failAt kind s with
   | (none, s1) => ({ rc := MEMORY_ERROR, map := m }, s1)
   | (some kn, s1) =>
     match extract keyNorm m.entries with
-    | some (e, _) =>
-      -- an item for that key exists; `different_key` = the spelling differs from the recorded one
-      if key = e.origStr then
-        match value with
-        | none => ({ rc := OK, map := { m with entries := replaceEntry keyNorm { e with val := .scalar e.val.obj } m.entries } },
-                   free kn (cleanOwned e.val s1))
-        | some sh =>
-          match cloneOnto failAt e.val sh s1 with
-          | (none, s2) => ({ rc := MEMORY_ERROR, map := m }, free kn s2)
-          | (some v, s2) => ({ rc := OK, map := { m with entries := replaceEntry keyNorm { e with val := v } m.entries } }, free kn s2)
-      else
-        match alloc failAt s1 with                                -- key_orig = cif_u_strdup(key)
-        | (none, s2) => ({ rc := MEMORY_ERROR, map := m }, free kn s2)
-        | (some o, s2) =>
-          let e1 := { e with orig := o, origStr := key }
-          let s2 := free e.orig s2                                 -- free(item->key_orig): the item is respelled from here on
-          match value with
-          | none => ({ rc := OK, map := { m with entries := replaceEntry keyNorm { e1 with val := .scalar e.val.obj } m.entries } },
-                     free kn (cleanOwned e.val s2))
-          | some sh =>
-            match cloneOnto failAt e.val sh s2 with
-            | (none, s3) => ({ rc := MEMORY_ERROR, map := { m with entries := replaceEntry keyNorm e1 m.entries } }, free kn s3)
-            | (some v, s3) => ({ rc := OK, map := { m with entries := replaceEntry keyNorm { e1 with val := v } m.entries } }, free kn s3)
-    | none =>
-      match alloc failAt s1 with                                  -- item = malloc(sizeof(struct entry_s))
-      | (none, s2) => ({ rc := MEMORY_ERROR, map := m }, free kn s2)
-      | (some ent, s2) =>
-        match alloc failAt s2 with                                -- key_copy = cif_u_strdup(key)
-        | (none, s3) => ({ rc := MEMORY_ERROR, map := m }, free kn (free ent s3))
-        | (some kc, s3) =>
-          let cloned : Option Owned × St :=
-            match value with
-            | none => (some (.scalar ent), s3)
-            | some sh => cloneOnto failAt (.scalar ent) sh s3
-          match cloned with
-          | (none, s4) => ({ rc := MEMORY_ERROR, map := m }, free kn (free ent (free kc s4)))
-          | (some v, s4) =>
-            let e : MEntry := { key := kn, orig := kc, keyStr := keyNorm, origStr := key, hashv := hashJen (keyBytes keyNorm), val := v }
-            match hashAdd failAt m e s4 with
-            | (.ok m', s5) => ({ rc := OK, map := m' }, s5)
-            | (.fatal t, s5) =>
-              if fixed then
-                -- undo the insertion (releases a table header obtained in this call), clean the value, then the handler
-                let s5 := match t with | some t => free t s5 | none => s5
-                ({ rc := MEMORY_ERROR, map := m }, free kn (free ent (free kc (cleanOwned v s5))))
-              else
-                ({ rc := MEMORY_ERROR, map := m, corrupt := true, leaked := v.parts ++ t.toList },
-                 free kn (free ent (free kc s5)))
+    | some (e, _) => mapSetExisting failAt m key keyNorm e value kn s1
+    | none => mapSetNew fixed failAt m key keyNorm value kn s1
 
 /-- cif_map_retrieve_item(map, key, value, do_remove = 1, code); `keep` = (value != NULL): the entry's value is handed
     to the caller, who releases it with cif_value_free (which frees the entry block) -/
@@ -318,7 +331,7 @@ def cloneEntries (fixed : Bool) (failAt : Nat) : List SrcEntry → MapSt → St 
         match alloc failAt s2 with                                -- cif_u_strdup(entry->key_orig)
         | (none, s3) => ({ rc := MEMORY_ERROR, map := {} }, mapClean tmp.ut tmp.entries (free ent (free k s3)))
         | (some o, s3) =>
-          match cloneOnto failAt (.scalar ent) src.shape s3 with
+          match newValue failAt ent (some src.shape) s3 with
           | (none, s4) => ({ rc := MEMORY_ERROR, map := {} }, mapClean tmp.ut tmp.entries (free ent (free k (free o s4))))
           | (some v, s4) =>
             let e : MEntry := { key := k, orig := o, keyStr := src.keyStr, origStr := src.origStr,
@@ -327,12 +340,11 @@ def cloneEntries (fixed : Bool) (failAt : Nat) : List SrcEntry → MapSt → St 
             | (.ok tmp', s5) => cloneEntries fixed failAt rest tmp' s5
             | (.fatal t, s5) =>
               if fixed then
-                let s5 := match t with | some t => free t s5 | none => s5
                 ({ rc := MEMORY_ERROR, map := {} },
-                 mapClean tmp.ut tmp.entries (free ent (free k (free o (cleanOwned v s5)))))
+                 mapClean tmp.ut tmp.entries (free ent (free k (free o (cleanOwned v (freeAll t s5))))))
               else
                 -- the walk over `temp` that follows is undefined behaviour: the events stop here
-                ({ rc := MEMORY_ERROR, map := tmp, corrupt := true, leaked := v.parts ++ t.toList },
+                ({ rc := MEMORY_ERROR, map := tmp, corrupt := true, leaked := v.parts ++ t },
                  free ent (free k (free o s5)))
 
 /-- `cif_value_clone(table, &clone)` with `*clone == NULL`: the value object, then cif_value_clone_table; on failure
